@@ -140,6 +140,10 @@ impl DeweyVersion {
                 version.push(-1);
                 idx += 2;
                 continue;
+            } else if slice.starts_with("pre") {
+                version.push(-1);
+                idx += 3;
+                continue;
             } else if slice.starts_with("pl") {
                 version.push(0);
                 idx += 2;
